@@ -4,6 +4,19 @@ from concurrent.futures import ThreadPoolExecutor
 from . import tlc
 
 
+def _san(o):
+    """JSON values TLC's Json module cannot read (null) are replaced; floats are not allowed at all."""
+    if o is None:
+        return "none"
+    if isinstance(o, dict):
+        return {k: _san(v) for k, v in o.items()}
+    if isinstance(o, (list, tuple)):
+        return [_san(v) for v in o]
+    if isinstance(o, float):
+        raise ValueError("float in TLC case: %r" % o)
+    return o
+
+
 def validate(ctx, spec, cfg, cases, name, chunk=1500, procs=8, workers=1, tag="CASE", env=None, timeout=1800,
              dfs=False):
     """cases: list of JSON-able dicts each having a unique 'id'. Returns {id: verdict-list}.
@@ -19,7 +32,7 @@ def validate(ctx, spec, cfg, cases, name, chunk=1500, procs=8, workers=1, tag="C
         for k in range(0, len(cases), chunk):
             fn = os.path.join(tmp, "chunk%d.json" % (k // chunk))
             with open(fn, "w") as f:
-                json.dump(cases[k:k + chunk], f)
+                json.dump(_san(cases[k:k + chunk]), f)
             files.append(fn)
 
         def one(fn):
